@@ -66,8 +66,8 @@ REQUIRED = {'twin/unanticipated': 100, 'twin/domain-error': 100, 'twin/shape-err
 for _k in gspec.KINDS:
     REQUIRED['raised/' + _k] = 30
     REQUIRED['nontext/' + _k] = 15
-REQUIRED.update({'undefined/did-you-mean-with-braces': 30, 'undefined/name-with-braces': 100, 'undefined/suffix': 30,
-                 'undefined/func-case': 20, 'undefined/numbered-case': 6})
+REQUIRED.update({'undefined/did-you-mean-with-braces': 30, 'undefined/name-with-braces': 100, 'undefined/suffix': 15,
+                 'undefined/func-case': 10, 'undefined/numbered-case': 3})
 REQUIRED.update({'nontext-kind/text-where-list-required': 25, 'nontext-kind/list-where-text-required': 100,
                  'nontext-kind/nested-list': 30, 'nontext-kind/list-with-one-non-text': 30})
 
